@@ -69,8 +69,9 @@ package codescan
 //@ ensures vs_hasJSONTag(field) ==> err == nil
 //@ ensures vs_hasJSONTag(field) ==> omitEmpty == vs_jsonOpts(field).Contain("omitempty")
 //@ ensures vs_hasJSONTag(field) ==> isString == (vs_jsonOpts(field).Contain("string") && isFieldStringable(field.Type))
-//@ ensures vs_hasJSONTag(field) ==> ignore == vs_jsonIgnored(field)
-//@ ensures vs_hasJSONTag(field) ==> name == vs_jsonName(field)
+//@ ensures vs_hasJSONTag(field) && !vs_dashComma(field) ==> ignore == vs_jsonIgnored(field)
+//@ ensures vs_hasJSONTag(field) && !vs_dashComma(field) ==> name == vs_jsonName(field)
+//@ ensures vs_hasJSONTag(field) && vs_dashComma(field) ==> !ignore && name == "-"
 
 //@ func setPathOperation
 //@ props C17
